@@ -14,6 +14,7 @@ Record purl := mkUrl {
   scheme : bytes;                               (* u.Scheme *)
   user : option (bytes * option bytes);         (* u.User: username, password if set *)
   host : bytes;                                 (* u.Host (host or host:port) *)
+  hostname : bytes;                             (* u.Hostname(): the host without port and without brackets *)
   path : bytes;                                 (* u.Path *)
   query : list (bytes * bytes)                  (* u.Query() as key/value pairs in order of appearance *)
 }.
@@ -62,7 +63,8 @@ Definition q_get (q : list (bytes * bytes)) (k : bytes) : bytes :=
 Definition join_host_port (h p : bytes) : bytes :=
   if contains_byte 58 h then (91 :: h) ++ (93 :: 58 :: p) else h ++ (58 :: p).
 
-(** the closure parseAddr of ParseURL *)
+(** the closure parseAddr of ParseURL; [uhost] is the default host: u.Hostname() after the repair (the original code
+    used u.Host, i.e. the host with the URL's own port and brackets) *)
 Definition parse_addr (e : env) (uhost hostport : bytes) : bytes * bytes :=
   let '(h, p) := split_host_port e hostport in
   let h := match h with [] => uhost | _ => h end in
@@ -121,7 +123,7 @@ Definition parse_url (e : env) (u : purl) : result opts :=
   if negb (is_unix_scheme (scheme u) || is_tls_scheme (scheme u) || is_plain_scheme (scheme u)) then Err EScheme
   else
   let unix := is_unix_scheme (scheme u) in
-  let ha := parse_addr e (host u) (host u) in
+  let ha := parse_addr e (hostname u) (host u) in
   let addr0 := if unix then [trim_space e (path u)] else [snd ha] in
   let tls0 := if is_tls_scheme (scheme u) then Some (mkTls (fst ha) false) else None in
   let un := match user u with Some (n, _) => n | None => [] end in
@@ -130,7 +132,7 @@ Definition parse_url (e : env) (u : purl) : result opts :=
   bind (stage_db u db_path) (fun db =>
   bind (stage_dur e u (b "dial_timeout") EDial) (fun dial =>
   bind (stage_dur e u (b "write_timeout") EWrite) (fun wr =>
-  let addrs := addr0 ++ map (fun a => snd (parse_addr e (host u) a)) (q_all q (b "addr")) in
+  let addrs := addr0 ++ map (fun a => snd (parse_addr e (hostname u) a)) (q_all q (b "addr")) in
   bind (stage_skip u tls0) (fun tls1 =>
     Ok (mkOpts addrs tls1 unix un pw
                (match db with Some z => z | None => 0%Z end)
